@@ -5,7 +5,7 @@ import TTV.Drv.C12
 /-! Driver glue for C13: codecs between S-expressions and `Conc.SInput` / `Conc.STrace`.
 
 input  = `(flavour workers mkRaise intr mfaults tb sched)`, flavour = `suite`|`stream`,
-         worker = `(tests boom faults)`, test = `(kind (tag…))` | `(kind (tag…) ((id kind tags omitted|explicitNone|(given n))…))`, mkRaise/intr = `none`|`(some n)`
+         worker = `(tests boom faults)` | `(tests boom faults polls)`, test = `(kind (tag…))` | `(kind (tag…) ((id kind tags omitted|explicitNone|(given n))…))`, mkRaise/intr = `none`|`(some n)`
 trace  = `(log sink result spawned joined live runs flags died finished)`
          sink entry = `((w id kind tags instant) hasTimestamp raised)`, tags/instant = `none`|`(some …)`, kind = `(st <status>)` | `(file T|F)`,
          result = `none` | `returned` | `(raised interrupt|makeTests|injected)`; `log` as in C12 -/
@@ -49,6 +49,7 @@ def wtest? : Sexp → Option WTest
 
 def worker? : Sexp → Option Worker
   | .list [ts, b, f] => do some { tests := ← list? wtest? ts, boom := ← bool? b, faults := ← list? nat? f }
+  | .list [ts, b, f, p] => do some { tests := ← list? wtest? ts, boom := ← bool? b, faults := ← list? nat? f, polls := ← bool? p }
   | _ => none
 
 def input? : Sexp → Option SInput
